@@ -171,9 +171,9 @@ Proof.
 Qed.
 
 (* ---- garbage collection: the fan-out is not bounded ---- *)
-Lemma gc_cons_F l : gc_after_cancel_all_started (F :: l) = (2 + gc_after_cancel_all_started l)%nat.
+Lemma gc_cons_F l : gc_after_cancel_all_started (F :: l) = (3 + gc_after_cancel_all_started l)%nat.
 Proof. reflexivity. Qed.
-Lemma gc_flat : forall n, gc_after_cancel_all_started (repeat F n) = (2 * n)%nat.
+Lemma gc_flat : forall n, gc_after_cancel_all_started (repeat F n) = (3 * n)%nat.
 Proof. induction n as [|n IH]; [reflexivity|]. change (repeat F (S n)) with (F :: repeat F n). rewrite gc_cons_F, IH. lia. Qed.
 
 Lemma gc_unbounded : forall B, exists cs, (gc_after_cancel_all_started cs > B)%nat.
